@@ -203,7 +203,15 @@ func c08Judge(c *mon.Ctx, src lint.Registry, srcInv []mon.LintInfo, srcLabel str
 	return got
 }
 
-func hashStrings(l []string) string { return mon.SnapDigest(func() mon.Snap { s := mon.Snap{}; for _, x := range l { s[x] = mon.SD{} }; return s }()) }
+func hashStrings(l []string) string {
+	return mon.SnapDigest(func() mon.Snap {
+		s := mon.Snap{}
+		for _, x := range l {
+			s[x] = mon.SD{}
+		}
+		return s
+	}())
+}
 
 func keysOf(m map[string]bool) []string {
 	var out []string
@@ -240,8 +248,8 @@ func diffNames(want, got []string) (missing, extra []string) {
 
 func init() {
 	mon.Register(&mon.Check{
-		ID: "C08",
-		Rule: "evaluations = Filter calls on the real registry (and on previously filtered, configured registries), each judged against a reference model over the inventory (name, source, kind): selected set, error cases (unknown name after trimming, pattern + name lists), identity for empty options, per-kind lookups returning the very same lint objects with equal metadata, Lints() sizes, Sources(), inherited configuration, source registry unchanged (names, sources, object identities, configuration). distinct_nontrivial = distinct selected name sets produced by valid option sets.",
+		ID:          "C08",
+		Rule:        "evaluations = Filter calls on the real registry (and on previously filtered, configured registries), each judged against a reference model over the inventory (name, source, kind): selected set, error cases (unknown name after trimming, pattern + name lists), identity for empty options, per-kind lookups returning the very same lint objects with equal metadata, Lints() sizes, Sources(), inherited configuration, source registry unchanged (names, sources, object identities, configuration). distinct_nontrivial = distinct selected name sets produced by valid option sets.",
 		Assumptions: []string{"option sets are seeded samples: multisets of known/unknown names with stray blanks, nil vs empty slices, all source subsets incl. Unknown and a non-existent source, a pool of regular expressions"},
 		Setup:       setupCommon,
 		Once: func(c *mon.Ctx) {
